@@ -84,7 +84,7 @@ PipeVerdict(c) ==
           ELSE IF ~c.malformed /\ Len(c.replies) # n THEN "more replies than commands"
           ELSE IF c.malformed /\ (Len(c.replies) < n + 1 \/ c.replies[n + 1].t # "error") THEN "a malformed frame was not answered by an error reply"
           ELSE IF c.undecoded # 0 THEN "the handler wrote bytes that are not a complete reply"
-          ELSE IF ~c.malformed /\ ~StateEq(exp.s, JState(c.s)) THEN "keyspace after the pipeline differs from the sequential run"
+          ELSE IF ~c.malformed /\ ~("nostate" \in DOMAIN c /\ c.nostate) /\ ~StateEq(exp.s, JState(c.s)) THEN "keyspace after the pipeline differs from the sequential run"
           ELSE "ok"
 
 ---------------------------------------------------------------------------
